@@ -1524,6 +1524,13 @@ Op:
 				if !l.scanParamExp() {
 					return false
 				}
+			case '`':
+				// command substitution
+				l.lit()
+				l.mark(-1)
+				if !l.scanCmdSubst('`') {
+					return false
+				}
 			case '}':
 				// right brace
 				l.unread()
